@@ -410,8 +410,12 @@ impl UpdateJob {
         mut batch: RecordBatch,
         updates: Arc<HashMap<String, Arc<dyn PhysicalExpr>>>,
     ) -> DFResult<RecordBatch> {
+        // SQL semantics: every right-hand side sees the row as it was before the UPDATE, so all
+        // expressions are evaluated against the original batch (the iteration order of the map
+        // must not matter).
+        let original = batch.clone();
         for (column, expr) in updates.iter() {
-            let new_values = expr.evaluate(&batch)?.into_array(batch.num_rows())?;
+            let new_values = expr.evaluate(&original)?.into_array(original.num_rows())?;
             batch = batch.replace_column_by_name(column.as_str(), new_values)?;
         }
         Ok(batch)
